@@ -38,7 +38,7 @@ SSeq(S) == SetToSortSeq(S, <)
 
 (* ---- configurations: a scenario family (which hook kinds / events are used) + event options ---- *)
 Fams == {"reent", "gate", "link", "max", "pool"}
-Small == Scope = "lts"
+Small == Scope \in {"lts", "lts2"}                       \* reduced hook alphabets (lts2 = the thorough tier's LTS: deeper histories)
 MaxMax == IF Small THEN 1 ELSE 2                        \* largest event-level WithMaxTriggerCount
 (* bounds of one history, per family: hooks attached (ids 1..nh), LinkTo(target) calls (link hook ids NH+1..), Triggers; *)
 (* they are part of cfg so that the adapter knows them                                                                   *)
@@ -47,6 +47,7 @@ NL == 4
 Bd(nh, nl, tr) == [nh |-> nh, nl |-> nl, tr |-> tr]
 B(f) == CASE Scope = "trace" -> Bd(6, 4, 8)
           [] Scope = "lts" -> (CASE f = "link" -> Bd(2, 2, 1) [] f = "pool" -> Bd(2, 0, 1) [] OTHER -> Bd(2, 0, 2))
+          [] Scope = "lts2" -> (CASE f = "link" -> Bd(2, 2, 2) [] f = "pool" -> Bd(2, 1, 1) [] f = "reent" -> Bd(3, 0, 2) [] OTHER -> Bd(2, 0, 3))
           [] Scope = "mc" -> (CASE f = "link" -> Bd(2, 2, 1) [] f = "pool" -> Bd(2, 1, 1) [] f = "reent" -> Bd(3, 0, 2) [] OTHER -> Bd(2, 0, 2))
           [] Scope = "thorough" -> (CASE f = "link" -> Bd(2, 2, 2) [] f = "pool" -> Bd(3, 1, 2) [] OTHER -> Bd(3, 0, 3))
 Cfg(f, ma, mc, ep) == [fam |-> f, ma |-> ma, mc |-> mc, ep |-> ep, nh |-> B(f).nh, nl |-> B(f).nl, tr |-> B(f).tr]
